@@ -504,6 +504,42 @@ func c13R1(p *core.Program, r *core.Report) {
 			r.Anchor(rule, "store into the "+k+" table of pkgInfo")
 		}
 	}
+	// ... and what was stored stays: nothing is taken out of a table again ("exactly the package-scope names, init and
+	// blank-named functions aside" - those two names are the only ones a removal may name)
+	nDel := 0
+	for _, f := range pkgUnits(p, "pkg/types") {
+		info := f.Info()
+		for _, c := range core.Calls(f.Body, true) {
+			name := core.CalleeName(info, c)
+			if (name != "builtin.delete" && name != "builtin.clear" && name != "maps.DeleteFunc") || len(c.Args) == 0 {
+				continue
+			}
+			fld := core.FieldOf(info, c.Args[0])
+			if fld == nil || (tableKind(fld.Type()) == "" && !isMethodsTable(fld.Type())) {
+				continue
+			}
+			nDel++
+			ok := false
+			if name == "builtin.delete" && len(c.Args) == 2 && tableKind(fld.Type()) == "functions" {
+				ok = constStrIs(info, c.Args[1], "init") || constStrIs(info, c.Args[1], "_")
+			}
+			r.Check(ok, rule, f, "nothing is taken out of a declaration table: "+core.ExprStr(c), c.Pos(), "removes only init / the blank name from the functions table",
+				"`"+core.ExprStr(c)+"` removes a package-scope object from the table the accessors answer from: Functions()/Function(name) no longer match the package scope (the type checker does declare main in the scope of a command)")
+		}
+	}
+	if nDel == 0 {
+		r.OK(rule, nil, "nothing is taken out of a declaration table", token.NoPos, "no delete / clear on a declaration table in pkg/types")
+	}
+}
+
+// isMethodsTable: map[*types.Named][]*types.Func.
+func isMethodsTable(t types.Type) bool {
+	m, ok := t.Underlying().(*types.Map)
+	if !ok {
+		return false
+	}
+	ptr, ok := m.Key().(*types.Pointer)
+	return ok && core.NamedTypeName(ptr.Elem()) == "go/types.Named"
 }
 
 // scopeTest: fact is `obj.Parent() == <pkg scope>` (true) or
